@@ -1240,6 +1240,14 @@ func (ctx *Context) evaluate() {
 			e.top = newTop
 			fstrBlockIndex -= 1
 			if v != nil {
+				// 这一段的文本在此刻确定: 数组/字典若留到拼接时才转字符串，后面的 {} 修改它会改写前面已经求值的部分，
+				// 而且整个模板展开完之前不会计入算力
+				if v.TypeId != VMTypeString {
+					v = NewStrVal(v.ToString())
+					if chargeNewString(v) {
+						return
+					}
+				}
 				stackPush(v)
 			} else {
 				stackPush(NewStrVal(""))
